@@ -8957,6 +8957,7 @@ const (
 	stmtsNormal stmtsKind = iota
 	stmtsLoopBody
 	stmtsFnBody
+	stmtsSwitchCase
 )
 
 func (p *parser) visitStmts(stmts []js_ast.Stmt, kind stmtsKind) []js_ast.Stmt {
@@ -9064,12 +9065,21 @@ func (p *parser) visitStmts(stmts []js_ast.Stmt, kind stmtsKind) []js_ast.Stmt {
 				continue
 			}
 
+			// All cases of a "switch" statement share one scope and a function
+			// declaration is initialized when that scope is entered, so a function
+			// can be used by a case even when the case that declares it never runs.
+			// A "let" would still be in its temporal dead zone at that point, so
+			// keep the function declaration itself in this case.
+			isSwitchCase := kind == stmtsSwitchCase
+
 			index, ok := fnStmts[s.Fn.Name.Ref]
 			if !ok {
 				index = len(letDecls)
 				fnStmts[s.Fn.Name.Ref] = index
-				letDecls = append(letDecls, js_ast.Decl{Binding: js_ast.Binding{
-					Loc: s.Fn.Name.Loc, Data: &js_ast.BIdentifier{Ref: s.Fn.Name.Ref}}})
+				if !isSwitchCase {
+					letDecls = append(letDecls, js_ast.Decl{Binding: js_ast.Binding{
+						Loc: s.Fn.Name.Loc, Data: &js_ast.BIdentifier{Ref: s.Fn.Name.Ref}}})
+				}
 
 				// Also write the function to the hoisted sibling symbol if applicable
 				if hoistedRef, ok := p.hoistedRefForSloppyModeBlockFn[s.Fn.Name.Ref]; ok {
@@ -9080,6 +9090,11 @@ func (p *parser) visitStmts(stmts []js_ast.Stmt, kind stmtsKind) []js_ast.Stmt {
 						ValueOrNil: js_ast.Expr{Loc: s.Fn.Name.Loc, Data: &js_ast.EIdentifier{Ref: s.Fn.Name.Ref}},
 					})
 				}
+			}
+
+			if isSwitchCase {
+				nonFnStmts = append(nonFnStmts, stmt)
+				continue
 			}
 
 			// The last function statement for a given symbol wins
@@ -11285,7 +11300,7 @@ func (p *parser) visitAndAppendStmt(stmts []js_ast.Stmt, stmt js_ast.Stmt) []js_
 			if isAlwaysDead {
 				p.isControlFlowDead = true
 			}
-			c.Body = p.visitStmts(c.Body, stmtsNormal)
+			c.Body = p.visitStmts(c.Body, stmtsSwitchCase)
 			p.isControlFlowDead = old
 
 			// Filter out this case when minifying if it's known to be dead. Visiting
